@@ -93,6 +93,16 @@ PGet(ev) ==
        ELSE Chk(OOR(ev), "positional read beyond the end must throw out_of_range")
   /\ RdKeep(ev, Cur)
 
+(* get<T>(advance, size) / pget<T>(offset, size) with an explicit span size >= sizeof(T): the value is decoded from the first
+   sizeof(T) bytes, the whole span must lie inside the data, the cursor moves over the whole span *)
+GSpan(ev) ==
+  LET off == IF ev.pos = 1 THEN ev.off ELSE Cur IN
+  IF Fits(off, ev.size, N)
+    THEN /\ Chk(OK(ev), "in-range read of a span threw")
+         /\ Chk(ev.ret = Dec(ev.ord, host, Slice(rd.data, Val(off), ev.w)), "span read: value is not the decoding of the first bytes of the span")
+         /\ RdKeep(ev, IF ev.pos = 0 /\ ev.adv = 1 THEN Dig8(Val(Cur) + Val(ev.size)) ELSE Cur)
+    ELSE Chk(OOR(ev), "a span that does not lie inside the data must throw out_of_range") /\ RdKeep(ev, Cur)
+
 Read(ev) ==
   LET k == ev.kind
       off == IF k \in {"pread", "preadx", "preadv", "preadxv"} THEN ev.off ELSE Cur
@@ -191,6 +201,7 @@ Step(ev) ==
     [] ev.e = "rnew" -> RNew(ev)
     [] ev.e = "get" -> Get(ev)
     [] ev.e = "pget" -> PGet(ev)
+    [] ev.e = "gspan" -> GSpan(ev)
     [] ev.e = "read" -> Read(ev)
     [] ev.e = "skip" -> Skip(ev)
     [] ev.e = "go" -> Go(ev)
